@@ -275,6 +275,10 @@ class Interp:
                 pass
         if name in self.reg.spec_names:
             return self.reg.spec_names[name]
+        if self.spec and name.startswith("ghost_") and name[6:] in self.ghost and not name[6:].startswith("__"):
+            # ghost functions / witnesses of the run (filter-comprehension indices, dict enumeration): visible to every
+            # piece of specification text, loop invariants included
+            return self.ghost[name[6:]]
         tm = getattr(self, "_target_mod", None)
         if mod is None and tm is not None:
             try:
